@@ -97,11 +97,16 @@ theorem runAction_wf (acc : EG × Subst) (a : Action) (h : acc.1.WF) : (runActio
 
 theorem runActions_wf (g : EG) (s : Subst) (as : List Action) (h : g.WF) : (runActions g s as).WF := by
   unfold runActions
-  have key : ∀ (as : List Action) (acc : EG × Subst), acc.1.WF → (as.foldl runAction acc).1.WF := by
+  have key : ∀ (as : List Action) (acc : EG × Subst), acc.1.WF → (runActionsFrom acc as).WF := by
     intro as
     induction as with
     | nil => intro acc h; exact h
-    | cons a as ih => intro acc h; exact ih _ (runAction_wf acc a h)
+    | cons a as ih =>
+      intro acc h
+      simp only [runActionsFrom]
+      split
+      · exact runAction_wf acc a h
+      · exact ih _ (runAction_wf acc a h)
   exact key as (g, s) h
 
 /-- **After every top-level action list** — whatever it contains: constructor calls, unions, sets,
